@@ -34,6 +34,8 @@ DET_EXC = {
 
 def run(ctx):
     fx, res = ctx.fx, ctx.res
+    import lemmas
+    lemmas.full_build_only_on_clones(fx, res, "R11.1")
     bs = fx.body(CMD + "_build_self")
     built_guard = r"is_set\(self\.settings,.*Built"
     muts = bs.calls_to(r"Command::_propagate$", r"Command::_check_help_and_version$", r"Command::_propagate_global_args$", r"builder::arg::Arg::_build$", r"MKeyMap::_build$",
